@@ -38,14 +38,24 @@ partial def parseRegex : List String → Option (Regex × List String)
   | "eoi" :: r => some (.eoi, r)
   | _ => none
 
-def parseKind : String → RuleKind
-  | "simple" => .simple
-  | "fallible" => .fallible
-  | "infallible" => .infallible
-  | _ => .none
+/-- the rule kinds of the trace protocol: the four kinds of the macro, plus `autoinf` / `autofal`: rules of kind `=>` / `=?` whose right-hand
+sides are token-for-token the SAME text (`|lexer| lexer.return_(lv::auto())`, a value constructed generically: token `9000` under `=>`, error
+`9001` under `=?`) — the macro must still give each rule the wrapper of its own kind -/
+inductive TKind where
+  | k (r : RuleKind)
+  | autoInf
+  | autoFal
+
+def parseKind : String → TKind
+  | "simple" => .k .simple
+  | "fallible" => .k .fallible
+  | "infallible" => .k .infallible
+  | "autoinf" => .autoInf
+  | "autofal" => .autoFal
+  | _ => .k .none
 
 /-- `let NAME <regex>` or `rule KIND IDX re <regex> [ctx <regex>]` -/
-def parseRB (toks : List String) : Option (RuleOrBinding × Option (Nat × RuleKind)) :=
+def parseRB (toks : List String) : Option (RuleOrBinding × Option (Nat × TKind)) :=
   match toks with
   | "let" :: name :: r => (parseRegex r).map fun (re, _) => (.binding name re, none)
   | "rule" :: kind :: idx :: "re" :: r => do
@@ -58,7 +68,7 @@ def parseRB (toks : List String) : Option (RuleOrBinding × Option (Nat × RuleK
 
 structure ParsedDef where
   items : LexerDef := []
-  kinds : List (Nat × RuleKind) := []
+  kinds : List (Nat × TKind) := []
   ruleSets : List String := []
   bad : Bool := false
 
@@ -241,12 +251,14 @@ def scripted (id : Nat) (nsets : List String) (withText : Bool) (fallible : Bool
   { user := u, reset := reset, switchTo := sw,
     res := match res with | 0 => none | 1 => some (.ok id) | _ => some (.error (id + 100)) }
 
-def mkActions (kinds : List (Nat × RuleKind)) (nsets : List String) (withText : Bool) (id : Nat) :
+def mkActions (kinds : List (Nat × TKind)) (nsets : List String) (withText : Bool) (id : Nat) :
     Action U Nat Nat :=
   match (kinds.find? (·.1 = id)).map (·.2) with
-  | some RuleKind.simple => .simple id
-  | some RuleKind.fallible => .fallible (scripted id nsets withText true)
-  | some RuleKind.infallible => .infallible fun v =>
+  | some TKind.autoInf => .infallible fun v => { user := v.user, res := some 9000 }
+  | some TKind.autoFal => .fallible fun v => { user := v.user, res := some (.error 9001) }
+  | some (TKind.k .simple) => .simple id
+  | some (TKind.k .fallible) => .fallible (scripted id nsets withText true)
+  | some (TKind.k .infallible) => .infallible fun v =>
       let e := scripted id nsets withText false v
       { user := e.user, reset := e.reset, switchTo := e.switchTo,
         res := match e.res with | some (.ok t) => some t | _ => none }
@@ -467,7 +479,7 @@ The input is the whole definition including the header, e.g.
 `PARSEDEF id:Lexer -> e:0 ; let id:x = c:97 ; rule id:Init { $ id:x > c:98 =? e:1 , } _ ,`.
 
 Output, one line, in the format of the Rust hook (`parse_line` in `verif_hooks.rs`):
-`PARSEDEF OK | errortype | let x <regex> | rule re <regex> [ctx <regex>] kind <none|simple|fallible|infallible> rhs <n> | ruleset Name { | .. | }`
+`PARSEDEF OK | errortype | let x <regex> | rule re <regex> [ctx <regex>] kind <none|simple|fallible|infallible> rhs <n> expr <T<k>|-> | ruleset Name { | .. | }`
 with regexes in the dump syntax of `showRegex`, or `PARSEDEF ERR` (a `syn` error, which includes a
 token list whose delimiters do not nest), or `PARSEDEF PANIC` (a Rust `panic!`). -/
 
@@ -494,7 +506,10 @@ def showRB (tbl : List RuleRhs) : RuleOrBinding → String
     let ctx := match r.ctx with
       | some c => " ctx " ++ showRegex c
       | none => ""
-    s!"rule re {showRegex r.re}{ctx} kind {showKind (tbl.getD r.rhs .none).kind} rhs {r.rhs}"
+    let expr := match tbl.getD r.rhs .none with
+      | .none => "-"
+      | .simple e | .fallible e | .infallible e => s!"T{e}"
+    s!"rule re {showRegex r.re}{ctx} kind {showKind (tbl.getD r.rhs .none).kind} rhs {r.rhs} expr {expr}"
 
 def showTopItem (tbl : List RuleRhs) : TopItem → List String
   | .errorType => ["errortype"]
